@@ -234,6 +234,9 @@ def run(ctx):
         for sim in simrun.SIMS:          # equal share per simulator
             run_hypothesis(ctx, 'random', simrun.sim_case(sims=[sim]), prop_case, 125 if quick else 5000)
         check_class_fractions(ctx, 'random', {'ended-by-horizon': 0.1, 'ended-by-extinction': 0.1, 'ended-immediately': 0.05})
+    if not only or 'large' in only:
+        for sim in simrun.SIMS:          # 70-150 nodes, hub of degree >= 69, heavy-tailed weights: size / rejection-count thresholds
+            run_hypothesis(ctx, 'large', simrun.large_case(sim), prop_case, 20 if quick else 300, rounds=2, case_timeout=300)
     if not only or 'rho' in only:
         run_hypothesis(ctx, 'rho', rho_case(), prop_case, 300 if quick else 10000)
     if not only or 'horizon' in only:
